@@ -117,7 +117,7 @@ Proof. split; vm_compute; reflexivity. Qed.
 
 (* ---------- T4: coordinate conventions ---------- *)
 Theorem position_shift_only_vcf : forall f j,
-  In (j, TIntM1) (schema f) -> j = 1 /\ (f = Fvcf \/ f = Fvcfgt \/ f = Fvcfph \/ f = Fvcfhap).
+  In (j, TIntM1) (schema f) -> j = 1 /\ (f = Fvcf \/ f = Fvcfgt \/ f = Fvcfph \/ f = Fvcfhap \/ f = Fvcf2).
 Proof.
   intros f j H. destruct f; simpl in H;
     repeat match goal with
